@@ -25,7 +25,7 @@ ASSUMPTIONS = [
     "reference evaluator mon/refmodel.py is the oracle (independent DFS evaluator, shares no code with Model)",
     "functions in mon/fnlib are total and deterministic",
 ]
-N = {"quick": 1500, "thorough": 20000}
+N = {"quick": 1500, "thorough": 80000}
 MIN_NONTRIVIAL = {"quick": 50, "thorough": 500}
 ENTRY = [
     "Model.__call__", "Model.get_right_hand_side", "Model.get_fluxes", "Model.get_args",
